@@ -91,6 +91,7 @@ pub fn run_drawable(cfg: &RunCfg, spec: &DrawableSpec, path: Path) -> DrawRun {
         ColorKind::Gray4 => run_typed::<Gray4>(cfg, spec, path),
         ColorKind::Gray8 => run_typed::<Gray8>(cfg, spec, path),
         ColorKind::C32 => run_typed::<crate::dev::C32>(cfg, spec, path),
+        k => unreachable!("{} is only used by C20", k.name()),
     }
 }
 
